@@ -87,6 +87,11 @@ def generate(rng, tier):
             op["fr"] = ops[-1]["fr"]
             if op["sig"]["path"]["kind"] == "array" and op["sig"]["opts"].get("doppler_smearing"):
                 op["sig"]["path"]["kind"] = "constant"
+        # hygiene (as in gen_signal): a discontinuous box profile is not combined with sub-sample integration or smearing -
+        # re-imposed here because the branches above replace the options after the profile kind was drawn
+        o_ = op["sig"]["opts"]
+        if op["sig"]["f"]["kind"] == "box" and (o_.get("integrate_f_profile") or o_.get("integrate_path") or o_.get("doppler_smearing")):
+            op["sig"]["f"]["kind"] = "gaussian"
         ops.append(op)
     return {"seams": {"clock_origin": 1.7e9 + rng.randrange(1000), "clock_jitter_seed": rng.randrange(1 << 20),
                       "entropy_salt": rng.randrange(1 << 20), "scratch": "c06"},
